@@ -1511,6 +1511,15 @@ BW_MidiSequencer::MidiEvent BW_MidiSequencer::parseEvent(const uint8_t **pptr, c
         evt.subtype = evtype;
         evt.data.insert(evt.data.begin(), data.begin(), data.end());
 
+        // A file may carry the codes of the internal events itself: their handlers index a payload of fixed size
+        if(((evtype == MidiEvent::ST_LOOPSTACK_BEGIN || evtype == MidiEvent::ST_CALLBACK_TRIGGER) && length < 1) ||
+           (evtype == MidiEvent::ST_RAWOPL && length < 2))
+        {
+            m_parsingErrorsString += "parseEvent: Special event with a too short payload.\n";
+            evt.isValid = 0;
+            return evt;
+        }
+
 #if 0 /* Print all tempo events */
         if(evt.subtype == MidiEvent::ST_TEMPOCHANGE)
         {
